@@ -14,10 +14,18 @@ CHECKS = {
         technique="Coq proof (induction over the cursor loop, closed-form interval spec) + differential run of the extracted model against Pieces::from_torrent",
         text="Theorems C06_layout_multi / C06_layout_single / C06_hash_count and the partition theorems hold for all file-length vectors and piece lengths with u64 checks explicit; the model is tied to pieces.rs by an exhaustive small-vector and u64-boundary differential run with an independent interval oracle.",
         ref="DESIGN.md section 5 C06"),
+    "C07": dict(
+        technique="Coq proof (info span = encoding of the info value via exact spans; hex round-trip) + differential run against Torrent::from_bytes, get_sha1_hexdigest and the sha1 crate",
+        text="C07_info_hash_is_H_of_info_bytes: for every loadable input the info-hash is H of exactly the contiguous bytes encoding the value bound to 'info'; C07_info_hash_indep_outer: it depends on the info value only; hex length/lowercase/injective. H (SHA-1) is abstract in the theorems; its executable instance is validated against the sha1 crate and hashlib.",
+        ref="DESIGN.md section 5 C07"),
     "C08": dict(
         technique="Coq proof (soundness + completeness of the fuelled decoder w.r.t. the canonical encoder, spans specified by a function) + exhaustive/generated differential run against Parser::decode",
         text="C08_decode_spec: decode x = Ok t <-> x is the encoding of exactly one canonical value v and t = annot 0 v (every node's start/continuation computed from the encodings); proved for all byte strings. The model is tied to parser.rs by comparing whole trees incl. every span on all strings over a 10-symbol bencode alphabet up to length 5 (6 thorough) plus grammar-generated, mutated and numeric-adversary inputs; an independent reference decoder names the violated clause.",
         ref="DESIGN.md section 5 C08"),
+    "C10": dict(
+        technique="Coq proof (loader model on token trees = specification on abstract values with exact-key look-up) + differential run against Torrent::from_bytes on generated documents",
+        text="C10_load_iff_wellformed: a byte string loads iff it is the canonical encoding of a value meeting spec_doc (clauses spelled out in C10_fields_faithful), with every loaded field equal to the value in the input; C10_exact_key: look-ups are by exact key. Tied to torrent.rs by 20k (150k thorough) structured/chaotic documents and a UTF-8 boundary stream, with an independent reference loader as oracle.",
+        ref="DESIGN.md section 5 C10"),
 }
 
 PENDING = {}
